@@ -336,15 +336,20 @@ fn c12(scn: &Scenario, log: &RunLog, res: &mut ScenarioResult) {
     let tail_port = scn.peers[tail_peer].port;
     let gm_tail = scn.peers[tail_peer].gm.identity;
 
+    let bound_inst = scn.daemon.ports.iter().map(|p| (2 * p.receipt_timeout as u64 + 8) * p.announce_ns()).max().unwrap();
     for (m, pc) in scn.daemon.ports.iter().enumerate() {
         let mode = pc.mode.name();
         let i_a = pc.announce_ns();
-        let bound = (2 * pc.receipt_timeout as u64 + 8) * i_a;
+        let silent_segment = silence || m != tail_port;
+        // a silent port becomes master through its own receipt timer; becoming the better master's
+        // slave is a BMCA decision that may have to wait for the receipt timeout of ANOTHER port
+        // (the previous parent fell silent there), so that case gets the instance-wide bound
+        let bound = if silent_segment { (2 * pc.receipt_timeout as u64 + 8) * i_a } else { bound_inst };
         let steady_from = tail_start + bound;
         // the probe changes what the probed port (and, through the BMCA, every other port) must do
         let steady_to = if m == tail_port || !silence { probe_ns } else { probe_ns };
         let times = |class: Class, from: u64, to: u64| -> Vec<u64> { log.em.iter().filter(|e| e.port == m && e.class == class && e.t_ns >= from && e.t_ns < to).map(|e| e.t_ns).collect() };
-        let silent_segment = silence || m != tail_port;
+        *res.probes.entry(format!("c12_port_state_when_tail_began_{}", state_at(log, m, tail_start))).or_insert(0) += 1;
         // the variant names the situation of THIS port: a port on a silent segment of a daemon whose
         // other port hears the better master is in the silence situation
         let tail_kind = variant;
@@ -496,7 +501,7 @@ fn c12(scn: &Scenario, log: &RunLog, res: &mut ScenarioResult) {
 
     // BMCA liveness probe at the end of the tail
     let pc = &scn.daemon.ports[tail_port];
-    let bound = (2 * pc.receipt_timeout as u64 + 8) * pc.announce_ns();
+    let bound = bound_inst;
     let mode = pc.mode.name();
     res.oracle_evals += 1;
     if silence {
